@@ -110,6 +110,13 @@ def run(tier, seed):
         raise errs[0]
     for name, _, _ in runs:
         out.add_mc(name, mc[name])
+    # (c) the builders as state machines (last setter wins) + builder programs in seeded histories, judged through the fold
+    pe = os.path.join(vlib.sub("mcb"), "penv.json")
+    json.dump(dict(vars=[dict(n=list("HOME"), v=list("/h"))]), open(pe, "w"))
+    out.add_mc("MC_Builders", vlib.tlc_mc("MC_Builders", workers=4, extra_env=dict(PENV=pe)))
+    from props import vfsrun
+    n, ln = (200, 150) if thorough else (12, 100)
+    vfsrun.hist(out, "builders", "rand", ["--n", str(n), "--len", str(ln), "--seed", str(seed + 11)], recs_per_chunk=13 if thorough else 1)
     out.assumptions += [
         "ChmodSym.SymMode is the reference reading of the documented grammar [dfa]:[ugoa]+[-+=][rwx]+ (one target letter per clause; a clause for the other kind is skipped; "
         "a malformed later clause is not settled); shown equal to the character scanner by MC_ChmodSym",
